@@ -61,6 +61,40 @@ theorem swap_installs (h h' h'' : Heap) (m : MId) (p s p' : List (Name × PTree)
     (hs : swap h m p = .ok (h', s)) (hb : swap h' m s = .ok (h'', p')) : Installs h' m p' :=
   swap_held hb (swap_nodup hs hnd)
 
+/-- **swap_back_returns_params** — when the parameter tensordict gives every submodule one
+sub-tensordict (`ConsP`: what `from_module` produces; no submodule reached through two names with two
+different sub-tensordicts), the swap back returns exactly the tensordict that was put in: `__exit__`
+leaves the user's parameter tensordict as it was. -/
+theorem swap_back_returns_params (h h' h'' : Heap) (m : MId) (p s p' : List (Name × PTree))
+    (pm : MId → List (Name × PTree)) (hwf : HeapWF h) (hnd : LeafNodup p) (hc : ConsP pm h m p)
+    (hs : swap h m p = .ok (h', s)) (hb : swap h' m s = .ok (h'', p')) : p' = p := by
+  obtain ⟨memo1, hrun⟩ := swap_inv hs
+  have hm0 : Memo.find [(m, none)] m = some none := by simp [find_cons]
+  have fr1 := swap_frame p h _ m h' memo1 s hrun hm0
+  obtain ⟨g1, gm1, outs', hrun2, hback⟩ := swap_back p h _ m h' memo1 s hrun hm0 hwf hnd h' [(m, none)] hm0
+    (fun _ => rfl) (fun _ _ _ _ => rfl) (fun _ _ => rfl) (fun c => fr1.kids c)
+  obtain ⟨memo2, hrun2'⟩ := swap_inv hb
+  rw [hrun2] at hrun2'
+  injection hrun2' with e; injection e with _ e; injection e with _ e3
+  subst e3
+  exact (hback.same pm hc (by
+    intro c sw hcs
+    rw [find_cons] at hcs
+    split at hcs
+    · cases hcs
+    · simp [Memo.find] at hcs)).1
+
+/-- **swap_installs_direct** — under the same condition, inside the block the module binds, under
+every (nested) key of the parameter tensordict, exactly the supplied object: it computes with the
+supplied values. -/
+theorem swap_installs_direct (h h' : Heap) (m : MId) (p s : List (Name × PTree))
+    (pm : MId → List (Name × PTree)) (hwf : HeapWF h) (hnd : LeafNodup p) (hc : ConsP pm h m p)
+    (hs : swap h m p = .ok (h', s)) : Installs h' m p := by
+  obtain ⟨h'', p', hb, _⟩ := swap_involutive h h' m p s hwf hnd hs
+  have := swap_installs h h' h'' m p s p' hnd hs hb
+  rw [swap_back_returns_params h h' h'' m p s p' pm hwf hnd hc hs hb] at this
+  exact this
+
 /-- a single leaf at the root: the supplied object is what the module binds inside the block -/
 theorem swap_installs_leaf (h h' : Heap) (m : MId) (k : Name) (t : Tn) (s : List (Name × PTree))
     (hs : swap h m [(k, .leaf t)] = .ok (h', s)) : Holds (cellAt h' m k) t := by
@@ -225,6 +259,13 @@ example : fromModule h2 3 0 = .ok (some [("w", .leaf ⟨1, true⟩),
 example : namedTensors h2 3 0 = .ok [(["w"], ⟨1, true⟩), (["a", "w"], ⟨1, true⟩), (["a", "rm"], ⟨2, false⟩),
     (["b2", "w"], ⟨1, true⟩), (["b2", "rm"], ⟨2, false⟩)] := by
   simp [namedTensors, namedKids, h2, ownTensors]
+
+-- the tensordict from_module gives for `h2` (a shared submodule under two names) satisfies `ConsP`
+example : ConsP (fun c => if c = 1 then [("w", .leaf ⟨1, true⟩), ("rm", .leaf ⟨2, false⟩)] else []) h2 0
+    [("w", .leaf ⟨1, true⟩),
+     ("a", .node [("w", .leaf ⟨1, true⟩), ("rm", .leaf ⟨2, false⟩)]),
+     ("b2", .node [("w", .leaf ⟨1, true⟩), ("rm", .leaf ⟨2, false⟩)])] := by
+  simp [ConsP, h2, Dict.get?]
 
 
 /-- the weak reference to the parameter tensordict is dead at `__exit__` (a temporary, or deleted
